@@ -27,3 +27,13 @@ PY_TRUST = [
     "CPython ast parser; Python semantics of the structured statement/expression subset used by the handwritten modules",
     "library model: NumPy/SymPy/networkx/antlr4 calls do not mutate their arguments except the listed in-place functions; copy.deepcopy returns an object sharing nothing mutable with its argument",
 ]
+
+
+def guarded(rep, rid, fn, *args, **kw):
+    """run one sub-rule; an idiom outside its set makes that rule inconclusive without hiding the verdicts of the others"""
+    from ..report import Inconclusive
+    try:
+        return fn(*args, **kw)
+    except Inconclusive as e:
+        rep.unknown(rid, "-", str(e))
+        return None
